@@ -3,139 +3,93 @@
 // ocaml/kdriver.ml.  One forked child per script: a crash / sanitizer abort ends only that script
 // and is reported as "!! CRASH".
 #include "probe.hh"
+#include "kernel_exec.hh"
+#include "oracle_kernel.hh"
 #include <fstream>
 #include <iostream>
 
 using namespace ovmv;
 typedef GeometryKernel<Vec3d, TopologyKernel> Mesh;
 
-static std::string echo(const std::string &nm, const std::vector<long> &l) {
-    std::string s = nm;
-    for (auto x : l) s += " " + std::to_string(x);
-    return s;
-}
-
-struct Result { bool rejected = false; bool has = false; long r = -1; std::string echo; };
-
-static Result exec_line(World<Mesh> &w, const std::vector<std::string> &toks) {
-    auto &m = w.mesh;
-    bool abs = toks[0][0] == '@';
-    std::string name = abs ? toks[0].substr(1) : toks[0];
-    std::vector<long> a;
-    Resolver<Mesh> r(m, abs);
-    Result res;
-    auto L = [&](size_t i) { return std::stol(toks.at(i)); };
-    auto all = [&](size_t from, auto f) { std::vector<long> v; for (size_t i = from; i < toks.size(); ++i) v.push_back(f(std::stol(toks[i]))); return v; };
-    if (name == "AddV") { res.echo = "AddV"; res.has = true; res.r = m.add_vertex().idx(); return res; }
-    if (name == "AddVs") { res.echo = "AddVs " + toks.at(1); m.add_n_vertices((size_t)L(1)); return res; }
-    if (name == "AddE") {
-        int x = r.lv(L(1)), y = r.lv(L(2)); long d = L(3);
-        res.echo = echo("AddE", {x, y, d});
-        if (!live_v(m, x) || !live_v(m, y)) { res.rejected = true; return res; }
-        res.has = true; res.r = m.add_edge(VertexHandle(x), VertexHandle(y), d != 0).idx(); return res;
-    }
-    if (name == "AddF" || name == "SetF") {
-        bool isset = name == "SetF";
-        long c = isset ? r.lf(L(1)) : L(1);
-        auto l = all(2, [&](long k) { return (long)r.lhe(k); });
-        std::vector<long> e{c}; e.insert(e.end(), l.begin(), l.end());
-        res.echo = echo(name, e);
-        bool ok = true; std::vector<HalfEdgeHandle> hs;
-        for (auto h : l) { ok = ok && live_he(m, (int)h); hs.push_back(HalfEdgeHandle((int)h)); }
-        if (isset) ok = ok && live_f(m, (int)c) && !hs.empty();
-        else ok = ok && (c != 0 || !hs.empty());   // an unchecked face without halfedges is outside the documented contract
-        if (!ok) { res.rejected = true; return res; }
-        if (isset) { m.set_face(FaceHandle((int)c), hs); return res; }
-        auto f = m.add_face(hs, c != 0); res.has = f.is_valid(); res.r = f.idx(); return res;
-    }
-    if (name == "AddFV") {
-        auto l = all(1, [&](long k) { return (long)r.lv(k); });
-        res.echo = echo("AddFV", l);
-        bool ok = !l.empty(); std::vector<VertexHandle> vs;
-        for (auto v : l) { ok = ok && live_v(m, (int)v); vs.push_back(VertexHandle((int)v)); }
-        if (!ok) { res.rejected = true; return res; }
-        auto f = m.add_face(vs); res.has = f.is_valid(); res.r = f.idx(); return res;
-    }
-    if (name == "AddC" || name == "SetC") {
-        bool isset = name == "SetC";
-        long c = isset ? r.lc(L(1)) : L(1);
-        auto l = all(2, [&](long k) { return (long)r.lhf(k); });
-        std::vector<long> e{c}; e.insert(e.end(), l.begin(), l.end());
-        res.echo = echo(name, e);
-        bool ok = true; std::vector<HalfFaceHandle> hs;
-        for (auto h : l) { ok = ok && live_hf(m, (int)h); hs.push_back(HalfFaceHandle((int)h)); }
-        if (isset) ok = ok && live_c(m, (int)c);
-        if (!ok) { res.rejected = true; return res; }
-        if (isset) { m.set_cell(CellHandle((int)c), hs); return res; }
-        auto ch = m.add_cell(hs, c != 0); res.has = ch.is_valid(); res.r = ch.idx(); return res;
-    }
-    if (name == "SetE") {
-        int e = r.le(L(1)), x = r.lv(L(2)), y = r.lv(L(3));
-        res.echo = echo("SetE", {e, x, y});
-        if (!live_e(m, e) || !live_v(m, x) || !live_v(m, y)) { res.rejected = true; return res; }
-        m.set_edge(EdgeHandle(e), VertexHandle(x), VertexHandle(y)); return res;
-    }
-    if (name == "DelV") { int v = r.lv(L(1)); res.echo = echo(name, {v}); if (!live_v(m, v)) { res.rejected = true; return res; } m.delete_vertex(VertexHandle(v)); return res; }
-    if (name == "DelE") { int v = r.le(L(1)); res.echo = echo(name, {v}); if (!live_e(m, v)) { res.rejected = true; return res; } m.delete_edge(EdgeHandle(v)); return res; }
-    if (name == "DelF") { int v = r.lf(L(1)); res.echo = echo(name, {v}); if (!live_f(m, v)) { res.rejected = true; return res; } m.delete_face(FaceHandle(v)); return res; }
-    if (name == "DelC") { int v = r.lc(L(1)); res.echo = echo(name, {v}); if (!live_c(m, v)) { res.rejected = true; return res; } m.delete_cell(CellHandle(v)); return res; }
-    if (name == "SwapV") { int x = r.av(L(1)), y = r.av(L(2)); res.echo = echo(name, {x, y}); if (x < 0 || y < 0 || x >= (int)m.n_vertices() || y >= (int)m.n_vertices()) { res.rejected = true; return res; } m.swap_vertex_indices(VertexHandle(x), VertexHandle(y)); return res; }
-    if (name == "SwapE") { int x = r.ae(L(1)), y = r.ae(L(2)); res.echo = echo(name, {x, y}); if (x < 0 || y < 0 || x >= (int)m.n_edges() || y >= (int)m.n_edges()) { res.rejected = true; return res; } m.swap_edge_indices(EdgeHandle(x), EdgeHandle(y)); return res; }
-    if (name == "SwapF") { int x = r.af(L(1)), y = r.af(L(2)); res.echo = echo(name, {x, y}); if (x < 0 || y < 0 || x >= (int)m.n_faces() || y >= (int)m.n_faces()) { res.rejected = true; return res; } m.swap_face_indices(FaceHandle(x), FaceHandle(y)); return res; }
-    if (name == "SwapC") { int x = r.ac(L(1)), y = r.ac(L(2)); res.echo = echo(name, {x, y}); if (x < 0 || y < 0 || x >= (int)m.n_cells() || y >= (int)m.n_cells()) { res.rejected = true; return res; } m.swap_cell_indices(CellHandle(x), CellHandle(y)); return res; }
-    if (name == "GC") { res.echo = "GC"; m.collect_garbage(); return res; }
-    if (name == "Clear") { res.echo = "Clear " + toks.at(1); m.clear(L(1) != 0); return res; }
-    if (name == "EnVBU") { res.echo = "EnVBU " + toks.at(1); m.enable_vertex_bottom_up_incidences(L(1) != 0); return res; }
-    if (name == "EnEBU") { res.echo = "EnEBU " + toks.at(1); m.enable_edge_bottom_up_incidences(L(1) != 0); return res; }
-    if (name == "EnFBU") { res.echo = "EnFBU " + toks.at(1); m.enable_face_bottom_up_incidences(L(1) != 0); return res; }
-    if (name == "EnDef") { res.echo = "EnDef " + toks.at(1); m.enable_deferred_deletion(L(1) != 0); return res; }
-    if (name == "EnFast") { res.echo = "EnFast " + toks.at(1); m.enable_fast_deletion(L(1) != 0); return res; }
-    if (name == "PCreate") {
-        int k = kind_index(toks.at(1)); long d = L(2);
-        std::string type = toks.size() > 3 ? toks[3] : "int";
-        res.echo = "PCreate " + toks[1] + " " + toks[2];
-        w.props[k].push_back(make_prop(m, k, type, d, w.seq++));
-        return res;
-    }
-    if (name == "PSet") {
-        int k = kind_index(toks.at(1));
-        long p = abs ? L(2) : Resolver<Mesh>::modn((int)w.props[k].size(), L(2));
-        long len = (p >= 0 && p < (long)w.props[k].size()) ? (long)w.props[k][p]->size() : 0;
-        long i = abs ? L(3) : Resolver<Mesh>::modn((int)len, L(3));
-        res.echo = "PSet " + toks[1] + " " + std::to_string(p) + " " + std::to_string(i) + " " + toks.at(4);
-        if (p < 0 || p >= (long)w.props[k].size() || i < 0 || i >= len) { res.rejected = true; return res; }
-        w.props[k][p]->set((size_t)i, L(4)); return res;
-    }
-    if (name == "PDrop") {
-        int k = kind_index(toks.at(1));
-        long p = abs ? L(2) : Resolver<Mesh>::modn((int)w.props[k].size(), L(2));
-        res.echo = "PDrop " + toks[1] + " " + std::to_string(p);
-        if (p < 0 || p >= (long)w.props[k].size()) { res.rejected = true; return res; }
-        w.props[k].erase(w.props[k].begin() + p); return res;
-    }
-    fprintf(stderr, "bad op %s\n", name.c_str());
-    exit(3);
-}
+static std::set<std::string> g_oracles;
+static bool on(const char *p) { return g_oracles.count(p) || g_oracles.count("all"); }
 
 static void run_script(const std::vector<std::string> &lines) {
     World<Mesh> w;
+    World<Mesh> twin;                       // C12: the same history with every incidence kind always enabled
+    bool use_twin = on("C12"), twin_ok = true;
+    bool any = !g_oracles.empty();
     int lineno = 0;
     for (auto &line : lines) {
         ++lineno;
         auto toks = split_ws(line);
         std::ostringstream o;
+        Snap a;
+        if (any) a = take_snap(w);
+        Result r;
+        bool unres = false;
         try {
-            Result r = exec_line(w, toks);
+            r = exec_line(w, toks);
             o << "== " << lineno << " " << r.echo << " -> ";
             if (r.rejected) o << "Rejected\n";
             else if (r.has) o << "Ok " << r.r << "\n";
             else o << "Ok -\n";
         } catch (Unresolvable &) {
+            unres = true;
             std::string t = line; 
             size_t b = t.find_first_not_of(" \t"), e = t.find_last_not_of(" \t\r\n");
             o << "== " << lineno << " " << t.substr(b, e - b + 1) << " -> Unresolvable\n";
         }
         dump_state(w, o);
+        if (any && !unres && !r.rejected) {
+            mark_new_vertices(w, a.nv);
+            Snap b = take_snap(w);
+            OracleOut out{o};
+            auto echo = split_ws(r.echo);
+            const std::string &op = echo[0];
+            bool is_del = op == "DelV" || op == "DelE" || op == "DelF" || op == "DelC";
+            bool is_swap = op == "SwapV" || op == "SwapE" || op == "SwapF" || op == "SwapC";
+            bool is_set = op == "SetE" || op == "SetF" || op == "SetC";
+            if (on("C01")) oracle_C01(w, b, out);
+            if (on("C02") && is_del) oracle_C02(a, b, op[3], std::stoi(echo[1]), out);
+            if (on("C03") && op != "PSet" && op != "PCreate" && op != "PDrop" && op != "Clear") oracle_C03(a, b, out, is_set);
+            if (on("C04") && (op == "GC" || (op == "EnDef" && echo[1] == "0"))) { oracle_C04(a, b, out); OracleOut o3{o}; oracle_C03(a, b, o3, false); if (o3.fails) out.fail("C04", "property values did not survive garbage collection on their entities"); }
+            if (on("C17") && is_swap) oracle_C17(a, b, op[4], std::stoi(echo[1]), std::stoi(echo[2]), out);
+            if (on("C11") && (op == "AddE" || op == "AddF" || op == "AddC")) oracle_C11(a, b, echo, r.has, r.r, out);
+            if (on("C08")) oracle_C08(w, b, echo, r.has, r.r, out);
+            if (use_twin && twin_ok) {
+                if (op == "EnVBU" || op == "EnEBU" || op == "EnFBU") { /* not replayed on the twin */ }
+                else {
+                    auto t2 = split_ws(r.echo); t2[0] = "@" + t2[0];
+                    if (op == "PCreate") t2 = toks;      // keeps the value type
+                    int tnv = (int)twin.mesh.n_vertices();
+                    Result r2 = exec_line(twin, t2);
+                    mark_new_vertices(twin, tnv);
+                    if (r2.rejected || r2.has != r.has || r2.r != r.r) { out.fail("C12", "with all incidences enabled the same call returns " + std::to_string(r2.r) + (r2.rejected ? " (rejected)" : "")); twin_ok = false; }
+                }
+                if (twin_ok) {
+                    Snap t = take_snap(twin);
+                    auto live_same = [](const auto &x, const auto &y, const std::vector<char> &del) {
+                        if (x.size() != y.size()) return false;
+                        for (size_t i = 0; i < x.size(); ++i) if (!del[i] && x[i] != y[i]) return false;
+                        return true; };
+                    // stored definitions of deferred-deleted entities are not part of the mesh (see KNOWN_FINDINGS D13)
+                    if (t.nv != b.nv || t.ed.size() != b.ed.size() || t.fd.size() != b.fd.size() || t.cd.size() != b.cd.size() ||
+                        !live_same(t.E, b.E, b.ed) || !live_same(t.F, b.F, b.fd) || !live_same(t.C, b.C, b.cd)) { out.fail("C12", "definitions differ from the same history run with all incidences enabled"); twin_ok = false; }
+                    else if (t.vd != b.vd || t.ed != b.ed || t.fd != b.fd || t.cd != b.cd || t.nlv != b.nlv || t.nle != b.nle || t.nlf != b.nlf || t.nlc != b.nlc) { out.fail("C12", "deletion flags / counts differ from the same history run with all incidences enabled"); twin_ok = false; }
+                    else { for (int k = 0; k < 7; ++k) if (t.P[k] != b.P[k]) { out.fail("C12", std::string("a ") + KIND_NAMES[k] + " property differs from the same history run with all incidences enabled"); twin_ok = false; break; } }
+                    if (twin_ok && (op == "EnVBU" || op == "EnEBU" || op == "EnFBU") && echo[1] == "1" && valid_for_c01(b)) {
+                        auto same_sets = [](const std::vector<std::vector<int>> &p, const std::vector<std::vector<int>> &q) {
+                            if (p.size() != q.size()) return false;
+                            for (size_t i = 0; i < p.size(); ++i) if (sorted(p[i]) != sorted(q[i])) return false;
+                            return true; };
+                        if (b.vbu && !same_sets(b.OUT, t.OUT)) out.fail("C12", "re-enabled vertex incidences differ from those of a mesh that never disabled them");
+                        if (b.ebu && !same_sets(b.HFS, t.HFS)) out.fail("C12", "re-enabled edge incidences differ from those of a mesh that never disabled them");
+                        if (b.fbu && b.CELL != t.CELL) out.fail("C12", "re-enabled face incidences differ from those of a mesh that never disabled them");
+                    }
+                }
+            }
+        }
         std::string s = o.str();
         fwrite(s.data(), 1, s.size(), stdout);
         fflush(stdout);
@@ -143,8 +97,14 @@ static void run_script(const std::vector<std::string> &lines) {
 }
 
 int main(int argc, char **argv) {
-    if (argc < 2) { fprintf(stderr, "usage: run_kernel <scripts>\n"); return 2; }
-    std::ifstream in(argv[1]);
+    if (argc < 2) { fprintf(stderr, "usage: run_kernel [--oracle C01,C02,...|all] <scripts>\n"); return 2; }
+    int ai = 1;
+    if (std::string(argv[1]) == "--oracle" && argc >= 4) {
+        std::string l = argv[2]; size_t p = 0;
+        while (p <= l.size()) { size_t q = l.find(',', p); if (q == std::string::npos) q = l.size(); if (q > p) g_oracles.insert(l.substr(p, q - p)); p = q + 1; }
+        ai = 3;
+    }
+    std::ifstream in(argv[ai]);
     std::string line, name;
     std::vector<std::string> cur;
     bool have = false;
